@@ -803,7 +803,7 @@ same generated texts on every run (clean, cut, separators only, separators beyon
 multi-byte characters) and judges the real output on its own. -/
 
 theorem C15_handlers_cut :
-    Robust.Gen.Exprs.fact "post.msg.Data" = "firstLine(req.Data)" ∧
-    Robust.Gen.Exprs.fact "delete.msg.Data" = "firstLine(req.Quitmessage)" := by decide
+    Robust.Gen.Exprs.fact "post.msg.Data" = "firstLine(local:struct{Data string; ClientMessageId uint64}.Data)" ∧
+    Robust.Gen.Exprs.fact "delete.msg.Data" = "firstLine(local:struct{Quitmessage string}.Quitmessage)" := by decide
 
 end Robust.Props.C15
